@@ -19,7 +19,7 @@ import sys
 import time
 
 V = os.path.dirname(os.path.dirname(os.path.abspath(__file__)))
-BASE = "/tmp/sc-base"          # unpatched reference build (library + nothing else), shared
+BASE = os.environ.get("SEED_BASE", "/tmp/sc-base")  # unpatched reference build (library only); one per concurrent runner
 CMAKE = ["-DCMAKE_BUILD_TYPE=Release", "-DWITH_BACKWARD=OFF", "-DWERROR=OFF",
          "-DFETCHCONTENT_SOURCE_DIR_GOOGLETEST=/usr/src/googletest", "-DFETCHCONTENT_UPDATES_DISCONNECTED=ON"]
 
